@@ -63,7 +63,8 @@ def noise_voltage(freqs: np.ndarray, h_obs: float) -> np.ndarray:
     T_sky = sky_noise(freqs)
     T_comb = T_sys + (T_earth * (1.0 - skyFrac) + T_sky * skyFrac)
 
-    bw = 1e6 * (freqs[1] - freqs[0])  # bandwidth in Hz
+    # bandwidth in Hz; a band of a single 10 MHz bin has no second centre to difference
+    bw = 1e6 * (freqs[1] - freqs[0]) if np.size(freqs) > 1 else 1e7
     Z_load = 50  # 50 ohm load
     k_b = 1.38064852e-23  # boltzmann's constant Watts / Hz / K
 
@@ -100,7 +101,8 @@ def noise_efield(freqs: np.ndarray, h_obs: float) -> float:
     T_sky = sky_noise(freqs)
     T_comb = T_sys + (T_earth * (1.0 - skyFrac) + T_sky * skyFrac)
 
-    bw = 1e6 * (freqs[1] - freqs[0])  # bandwidth in Hz
+    # bandwidth in Hz; a band of a single 10 MHz bin has no second centre to difference
+    bw = 1e6 * (freqs[1] - freqs[0]) if np.size(freqs) > 1 else 1e7
     Z_0 = 376.730  # the impedance of free-space in Ohms
     k_b = 1.38064852e-23  # boltzmann's constant Watts / Hz / K
     c = 299792458.0
